@@ -152,46 +152,17 @@ pub fn string_to_number(s: &str) -> f64 {
         return f64::NEG_INFINITY;
     }
 
-    // Check for hex/octal/binary prefixes (case-insensitive)
-    if trimmed.len() >= 2 {
-        let bytes = trimmed.as_bytes();
-        if bytes.first() == Some(&b'0') {
-            match bytes.get(1) {
-                Some(b'x' | b'X') => {
-                    // Hexadecimal: 0x...
-                    let hex_part = trimmed.get(2..).unwrap_or("");
-                    if hex_part.is_empty() {
-                        return f64::NAN;
-                    }
-                    return match u64::from_str_radix(hex_part, 16) {
-                        Ok(n) => n as f64,
-                        Err(_) => f64::NAN,
-                    };
-                }
-                Some(b'o' | b'O') => {
-                    // Octal: 0o...
-                    let oct_part = trimmed.get(2..).unwrap_or("");
-                    if oct_part.is_empty() {
-                        return f64::NAN;
-                    }
-                    return match u64::from_str_radix(oct_part, 8) {
-                        Ok(n) => n as f64,
-                        Err(_) => f64::NAN,
-                    };
-                }
-                Some(b'b' | b'B') => {
-                    // Binary: 0b...
-                    let bin_part = trimmed.get(2..).unwrap_or("");
-                    if bin_part.is_empty() {
-                        return f64::NAN;
-                    }
-                    return match u64::from_str_radix(bin_part, 2) {
-                        Ok(n) => n as f64,
-                        Err(_) => f64::NAN,
-                    };
-                }
-                _ => {}
-            }
+    // Check for hex/octal/binary prefixes (case-insensitive); no sign is allowed with them
+    let mut prefix = trimmed.chars();
+    if prefix.next() == Some('0') {
+        let radix = match prefix.next() {
+            Some('x' | 'X') => Some(16),
+            Some('o' | 'O') => Some(8),
+            Some('b' | 'B') => Some(2),
+            _ => None,
+        };
+        if let Some(radix) = radix {
+            return parse_radix_digits(prefix.as_str(), radix).unwrap_or(f64::NAN);
         }
     }
 
@@ -214,6 +185,41 @@ pub fn string_to_number(s: &str) -> f64 {
     // Rust's parse::<f64> handles most cases, but we need to ensure
     // the entire string is consumed and matches JS semantics
     trimmed.parse::<f64>().unwrap_or(f64::NAN)
+}
+
+/// Value of a non-empty run of digits in radix 2, 8 or 16, rounded to the nearest double
+/// (ties to even) however long the run is. `None` for an empty run or a character that is not
+/// a digit of the radix.
+pub fn parse_radix_digits(digits: &str, radix: u32) -> Option<f64> {
+    if digits.is_empty() {
+        return None;
+    }
+    let bits_per_digit = radix.trailing_zeros();
+    // The leading digits exactly; whether anything non-zero follows them decides ties
+    let mut leading: u128 = 0;
+    let mut dropped_digits = 0u32;
+    let mut dropped_nonzero = false;
+    for c in digits.chars() {
+        let digit = c.to_digit(radix)?;
+        if leading.leading_zeros() >= bits_per_digit {
+            leading = (leading << bits_per_digit) | digit as u128;
+        } else {
+            dropped_digits += 1;
+            dropped_nonzero |= digit != 0;
+        }
+    }
+    if dropped_nonzero {
+        // Far below the 53 bits that survive: only keeps an exact tie from rounding to even
+        leading |= 1;
+    }
+    let mut value = leading as f64;
+    for _ in 0..dropped_digits {
+        if value.is_infinite() {
+            break;
+        }
+        value *= radix as f64;
+    }
+    Some(value)
 }
 
 /// Trim JavaScript whitespace from both ends of a string.
